@@ -19,3 +19,11 @@ Check Props.C16.C16_broadcast_targets :
     /\ ops s' o = Some p /\ op_a p = b /\ op_k p = XBcast
     /\ actors s' a = Some x' /\ a_bcur x' = S (a_bcur x) /\ a_children x' = a_children x.
 Check Props.C16.C16_broadcast_is_complete : forall tr, accepts tr = true -> Chk.C16.chk_C16 tr = true.
+Check Props.C16.C16_copy_lands_at_the_tail_of_the_childs_mailbox :
+  forall s a ty o s', step s (EvBcast a ty o) = Acc s' ->
+  exists x h b k xb xb',
+    actors s a = Some x
+    /\ nth_error (filter (fun c => Nat.eqb (fst c) ty) (a_children x)) (a_bcur x) = Some (ty, h)
+    /\ handles s h = Some (b, k)
+    /\ actors s b = Some xb /\ actors s' b = Some xb'
+    /\ a_queue xb' = (if a_rx xb then a_queue xb ++ [PTask o] else a_queue xb).
